@@ -770,3 +770,123 @@ def naming(model, rng, fea=0.5, collide=0.6, twin=False):
             model["fea_names"].append({"where": "a font-specific name", "id": 256, "string": "Custom string"})
         model["features_fea"] = "\n".join(L) + "\n"
     return model
+
+
+# ------------------------------------------------------------------------------------------ boundary values (C19)
+def boundary(model, rng, kind=None):
+    """Plant one value at / just beyond a representable limit.  model["boundary"] records what and where, so that the
+    oracle can tell 'rejected', 'read back unchanged' and 'shape preserved' from 'clamped or wrapped'."""
+    kinds = ["advance", "neg-advance", "coord", "coord-diff", "comp-offset", "comp-scale", "kern", "anchor", "metric", "var-delta",
+             "upem", "weightclass", "widthclass", "height", "lsb"]
+    glyphs = [g for g in model["glyphs"] if g["export"] and g["name"] != ".notdef"]
+    simple = [g for g in glyphs if all(not l["components"] for l in g["layers"].values()) and any(l["contours"] for l in g["layers"].values())]
+    comps = [g for g in glyphs if any(l["components"] for l in g["layers"].values())]
+    full = [m for m in model["masters"] if m["layer"] is None]
+    kind = kind or rng.choice(kinds)
+    tags = {a["tag"] for a in model["axes"]}
+    if (kind == "weightclass" and "wght" in tags) or (kind == "widthclass" and "wdth" in tags):
+        kind = "advance"  # a variable font takes these classes from the axis default, not from fontinfo
+    b = {"kind": kind}
+    I16 = [32766, 32767, 32768, -32768, -32769, 40000, -40000, 70000]
+
+    def all_layers(g):
+        return list(g["layers"].values())
+    if kind in ("advance", "neg-advance", "height"):
+        g = rng.choice(glyphs)
+        v = rng.choice([65534, 65535, 65536, 70000, 131071]) if kind != "neg-advance" else rng.choice([-1, -50, -32768])
+        key = "height" if kind == "height" else "width"
+        if kind == "height" and all_layers(g)[0].get("height") is None:
+            kind = b["kind"] = "advance"
+            key = "width"
+        for l in all_layers(g):
+            l[key] = v
+        b.update(glyph=g["name"], value=v, beyond=v > 65535 or v < 0, accept="must" if 0 <= v <= 65535 else "reject")
+    elif kind in ("coord", "lsb") and simple:
+        g = rng.choice(simple)
+        v = rng.choice(I16 + [16000, -16000])
+        axis = rng.choice([0, 1])
+        for l in all_layers(g):
+            if l["contours"]:
+                l["contours"][0][0][axis] = v
+        # (-32768 is representable, but the step to or from it from any point on the other side of the origin is not)
+        # near the limit the step to the neighbouring points may not fit either: acceptance is only required well inside
+        b.update(glyph=g["name"], value=v, beyond=abs(v) > 32767, accept="must" if abs(v) <= 16000 else ("reject" if abs(v) > 32768 else "either"))
+    elif kind == "coord-diff" and simple:
+        g = rng.choice(simple)
+        lo, hi = rng.choice([(-16384, 16383), (-16384, 16384), (-20000, 20000), (-32768, 32767), (0, 32767)])
+        for l in all_layers(g):
+            if l["contours"] and len(l["contours"][0]) >= 3:
+                c = l["contours"][0]
+                c[0][0], c[1][0] = lo, hi
+        b.update(glyph=g["name"], value=hi - lo, beyond=hi - lo > 32767, accept="must" if hi - lo <= 32767 else "either")
+    elif kind == "comp-offset" and comps:
+        g = rng.choice(comps)
+        v = rng.choice(I16)
+        for l in all_layers(g):
+            if l["components"]:
+                l["components"][0]["xform"][4] = v
+        b.update(glyph=g["name"], value=v, beyond=abs(v) > 32767 and v != -32768)
+    elif kind == "comp-scale" and comps:
+        g = rng.choice(comps)
+        v = rng.choice([1.99993896484375, 1.99997, 2.0, -2.0, 2.0001, -2.0001, 3.0, -5.0])
+        which = rng.choice([0, 3])
+        for l in all_layers(g):
+            if l["components"]:
+                l["components"][0]["xform"][which] = v
+        b.update(glyph=g["name"], value=v, beyond=abs(v) > 1.99993896484375 and v != -2.0)
+    elif kind == "kern" and len(glyphs) >= 2:
+        a, c = glyphs[0]["name"], glyphs[1]["name"]
+        v = rng.choice(I16)
+        for m in full:
+            m["kerning"] = {a: {c: v}}
+            m["groups"] = {}
+        b.update(pair=[a, c], value=v, beyond=abs(v) > 32767 and v != -32768)
+    elif kind == "anchor" and len(glyphs) >= 2:
+        base, mark = glyphs[0], glyphs[1]
+        v = rng.choice(I16)
+        for l in all_layers(base):
+            l["anchors"] = [{"name": "top", "x": v, "y": 700}]
+        for l in all_layers(mark):
+            l["anchors"] = [{"name": "_top", "x": 100, "y": 600}]
+        model["lib"]["public.openTypeCategories"] = {base["name"]: "base", mark["name"]: "mark"}
+        b.update(glyph=base["name"], value=v, beyond=abs(v) > 32767 and v != -32768)
+    elif kind == "metric":
+        key = rng.choice(["ascender", "descender", "openTypeOS2TypoAscender", "openTypeOS2TypoLineGap", "openTypeHheaAscender", "openTypeHheaLineGap",
+                          "openTypeOS2WinAscent", "postscriptUnderlinePosition", "openTypeOS2StrikeoutSize", "xHeight", "capHeight", "openTypeOS2SubscriptYOffset"])
+        unsigned = key in ("openTypeOS2WinAscent",)
+        v = rng.choice([65535, 65536, 70000, -1] if unsigned else I16)
+        for m in full:
+            m["info"][key] = v
+        beyond = (v > 65535 or v < 0) if unsigned else (abs(v) > 32767 and v != -32768)
+        # ascender / descender also shape the synthesized .notdef and the vertical origin: near the limit either outcome is fine
+        b.update(field=key, value=v, beyond=beyond, accept="reject" if beyond else ("either" if key in ("ascender", "descender", "openTypeOS2TypoAscender") else "must"))
+    elif kind == "var-delta" and simple and len(full) >= 2:
+        g = rng.choice(simple)
+        lo, hi = rng.choice([(-16384, 16383), (-16384, 16384), (-20000, 20000), (-32768, 32767)])
+        first = True
+        for mname, l in g["layers"].items():
+            if l["contours"]:
+                l["contours"][0][0][0] = lo if first else hi
+            first = False
+        b.update(glyph=g["name"], value=hi - lo, beyond=hi - lo > 32767)
+    elif kind == "upem":
+        v = rng.choice([15, 16, 16384, 16385, 65535, 65536, 100000])
+        model["upem"] = v
+        b.update(value=v, beyond=v > 16384 or v < 16, accept="must" if 16 <= v <= 16384 else "reject")
+    elif kind == "weightclass":
+        v = rng.choice([0, 1, 1000, 1001, 65535, 65536, 70000, -1])
+        model.setdefault("names", {})["openTypeOS2WeightClass"] = v
+        b.update(value=v, beyond=v > 65535 or v < 0, accept="must" if 1 <= v <= 1000 else ("reject" if v > 65535 or v < 0 else "either"))
+    elif kind == "widthclass":
+        v = rng.choice([0, 1, 9, 10, 100, -1])
+        model.setdefault("names", {})["openTypeOS2WidthClass"] = v
+        b.update(value=v, beyond=v < 1 or v > 9, accept="must" if 1 <= v <= 9 else "reject")
+    else:
+        b["kind"] = "none"
+    if "accept" not in b:
+        b["accept"] = "reject" if b.get("beyond") else "must"
+        if b["kind"] in ("var-delta", "comp-scale", "comp-offset"):
+            b["accept"] = "either" if b.get("beyond") else "must"  # a shape-preserving fallback is as good as an error
+    model["boundary"] = b
+    model["expect"] = {"compiles": "either"}
+    return model
